@@ -53,6 +53,11 @@ class Run:
             self.analysed.setdefault('configurations', []).append(cfg)
             self.analysed['units_' + cfg] = len(m['units'])
             self.analysed['functions_' + cfg] = len(m['functions'])
+            rn = m.get('_renamed') or {}
+            if rn and not os.environ.get('VERIF_ALPHA'):
+                self.analysed['renamed_locals_' + cfg] = len(rn)
+                for q, names in sorted(rn.items())[:12]:
+                    self.observe('%s: renamed locals are reported under their tabled names: %s' % (q, names))
         return self._facts[cfg]
 
     def ir(self, cfg='Q0'):
@@ -145,6 +150,21 @@ def thorough(prop, mod, run):
                     run.broken('SELFTEST', 'seed %s' % n, 'the confirmed seeded change %s is no longer reported by %s (expected rule %s, got %s): the check lost sensitivity'
                                % (n, prop, want, got.get(n)))
             out['selftest_seeds'] = {'expected': len(mine), 'caught': ok}
+    # ---- metamorphic: a consistent renaming of locals/parameters (all of them, and two disjoint halves) must not change any verdict
+    al = 0
+    for modpick in (('1', '0'), ('2', '0'), ('2', '1')):
+        env = dict(os.environ, VERIF_ALPHA='_zq', VERIF_ALPHA_MOD=modpick[0], VERIF_ALPHA_PICK=modpick[1],
+                   VERIF_EVIDENCE_DIR=os.path.join(os.environ.get('TMPDIR', '/tmp'), 'grverif-alpha-%s-%d' % (prop, os.getpid())))
+        q = subprocess.run([sys.executable, os.path.join(VERIF, 'bin', 'check.py'), prop], capture_output=True, text=True, env=env, cwd=VERIF)
+        import shutil
+        shutil.rmtree(env['VERIF_EVIDENCE_DIR'], ignore_errors=True)
+        inst = 'alpha-renaming of locals (subset %s/%s)' % (modpick[1], modpick[0])
+        if q.returncode == 0:
+            al += 1
+            run.held('SELFTEST', inst, '', 'verdicts unchanged when the facts are presented with renamed locals and parameters', False)
+        else:
+            run.broken('SELFTEST', inst, 'FALSE ALARM: renaming locals changes the verdict of %s (exit %d): %s' % (prop, q.returncode, (q.stdout.strip().splitlines() or [''])[-3:]))
+    out['selftest_alpha'] = {'variants': 3, 'silent': al}
     neutral = sorted(os.listdir(os.path.join(VERIF, 'selftest', 'neutral'))) if os.path.isdir(os.path.join(VERIF, 'selftest', 'neutral')) else []
     neutral = [n for n in neutral if n.endswith('.diff')]
     if neutral:
